@@ -2,6 +2,7 @@ package reasm
 
 import (
 	"fmt"
+	"math"
 	"testing"
 	"time"
 
@@ -23,9 +24,12 @@ import (
 // definite answers are asserted, so scheduling delay can make the check say
 // less but never something wrong.
 
-var hC19 = hx.New("C19", "rapid-generated histories mixing pushes of (mostly) never-completing events, real sleeps shorter and longer than the timeout, Maintain, Close, calls after Close; timeout in {-1s, 0, 300us, 1ms, 1h}, maxInFlight 0..6, windowed sequences; oracle: interval (three-valued) expiry oracle from harness clock brackets + Close/after-Close/constructor rules. Non-trivial = history with a delivery whose only cause is a definitely elapsed timeout, or with a call made after Close; distinct by hash of the history")
+var hC19 = hx.New("C19", "rapid-generated histories mixing pushes of (mostly) never-completing events, real sleeps shorter and longer than the timeout, Maintain, Close, calls after Close; timeout in {-1s, the most negative Duration, 0, 300us, 1ms, 1h, 290 years, the largest Duration}, maxInFlight 0..6, windowed sequences; oracle: interval (three-valued) expiry oracle from harness clock brackets + Close/after-Close/constructor rules. Non-trivial = history with a delivery whose only cause is a definitely elapsed timeout, or with a call made after Close; distinct by hash of the history")
 
-var c19Timeouts = []time.Duration{-time.Second, 0, 300 * time.Microsecond, time.Millisecond, time.Millisecond, time.Hour}
+// "effectively infinite" includes the idiomatic "never": the largest Duration, and other values whose
+// sum with the current time does not fit into 64 bits of nanoseconds
+var c19Timeouts = []time.Duration{-time.Second, 0, 300 * time.Microsecond, time.Millisecond, time.Millisecond, time.Hour,
+	time.Duration(math.MaxInt64), time.Duration(math.MaxInt64) - time.Hour, 290 * 365 * 24 * time.Hour, time.Duration(math.MinInt64)}
 
 func genC19(t *rapid.T) History {
 	h := History{Windowed: true}
